@@ -9,6 +9,7 @@ import (
 	"verif/harness/internal/c05"
 	"verif/harness/internal/c08"
 	"verif/harness/internal/c14"
+	"verif/harness/internal/c15"
 )
 
 func main() {
@@ -23,6 +24,8 @@ func main() {
 		os.Exit(c08.Main(os.Args[2:]))
 	case "c14":
 		os.Exit(c14.Main(os.Args[2:]))
+	case "c15":
+		os.Exit(c15.Main(os.Args[2:]))
 	case "c05":
 		os.Exit(c05.Main(os.Args[2:]))
 	}
